@@ -49,6 +49,9 @@ def reset_global_state():
     m = load()
     m["deferred"].try_compute.depth = 0
     del m["deferred"].Awaiting.awaiting_stack[:]
+    if hasattr(m["deferred"].Awaiting, "found_cycles_stack"):
+        del m["deferred"].Awaiting.found_cycles_stack[:]
+        m["deferred"].Awaiting.known_cycles.clear()
     del m["reports"].handle_reports.handlers_stack[:]
 
 
